@@ -312,6 +312,54 @@ fn stats_case_full(prev_same_target: bool, prev_vals: (u8, u8, u8), new_vals: (u
     core::mem::forget(c);
 }
 
+/// the cache AT ITS CAPACITY (MAX_CACHED_ITERATIVE_QUERIES entries: the oldest one tracked, the others
+/// untracked "ghost" entries of the lru stand-in whose contribution to the statistics is `base`):
+/// caching one more lookup evicts exactly the oldest entry AND subtracts its contribution, so the
+/// statistics still equal the aggregate over what the cache holds
+#[kani::proof]
+#[kani::unwind(22)]
+#[kani::stub(std::time::Instant::now, clock::mock_now)]
+#[kani::stub(getrandom::fill, fill_const)]
+#[kani::stub(ClosestNodes::dht_size_estimate, stub_dht_size_estimate)]
+#[kani::stub(ClosestNodes::subnets_count, stub_subnets_count)]
+#[kani::stub(Id::is_valid_for_ip, stub_valid)]
+fn c20_a_full_cache_evicts_its_oldest_lookup_and_subtracts_it() {
+    let mut c = core(true);
+    let old = id1(0x90);
+    let target = id1(0x10);
+    // (request kinds concrete: a get_peers lookup is the oldest entry, a find_node lookup is cached;
+    // the kind-by-kind pairing is the other obligations' subject, and 4x4 symbolic kinds did not finish in 700 s here)
+    let pk: u8 = 1;
+    c.cached_iterative_queries.put(old, cached(pk, old, 3.0, 5.0, 7));
+    c.cached_iterative_queries.ghost = crate::core::MAX_CACHED_ITERATIVE_QUERIES - 1;
+    c.cached_iterative_queries.above = 0;
+    let (pb, ps) = contrib(pk, 3.0, 5.0, 7);
+    // what the untracked entries contributed
+    let base = (40usize, 400.0f64, 30usize, 300.0f64, 90usize);
+    crate::common::verif_kani::routing_table::set_stats(&mut c.routing_table, (base.0 + pb.0, base.1 + pb.1, base.2 + pb.2, base.3 + pb.3, base.4 + pb.4));
+    crate::common::verif_kani::routing_table::set_stats(&mut c.signed_peers_routing_table, (base.0 + ps.0, base.1 + ps.1, base.2 + ps.2, base.3 + ps.3, base.4 + ps.4));
+    let k: u8 = 0;
+    unsafe {
+        EST_CLOSEST = 11.0;
+        EST_RESP = 13.0;
+        SUBNETS = 17;
+    }
+    let mut q = iq::query(k, target);
+    iq::push_candidate(&mut q, crate::common::verif_kani::node::node_aged(id1(0x20), SocketAddrV4::new(5u32.into(), 5), 0));
+    c.cache_iterative_query(&q, &[]);
+    let (nb, ns) = contrib(k, 11.0, 13.0, 17);
+    assert!(c.cached_iterative_queries.len() == crate::core::MAX_CACHED_ITERATIVE_QUERIES, "C20: the cache stays at its capacity");
+    assert!(c.cached_iterative_queries.contains(&target) && !c.cached_iterative_queries.contains(&old), "C20: the oldest lookup is the one evicted");
+    assert!(stats(&c.routing_table) == (base.0 + nb.0, base.1 + nb.1, base.2 + nb.2, base.3 + nb.3, base.4 + nb.4),
+        "C20: a lookup evicted from a full cache is subtracted from the basic table's statistics");
+    assert!(stats(&c.signed_peers_routing_table) == (base.0 + ns.0, base.1 + ns.1, base.2 + ns.2, base.3 + ns.3, base.4 + ns.4),
+        "C20: a lookup evicted from a full cache is subtracted from the signed-peers table's statistics");
+    kani::cover!(c.cached_iterative_queries.len() == crate::core::MAX_CACHED_ITERATIVE_QUERIES);
+    kani::cover!(stats(&c.routing_table).0 == 41);
+    core::mem::forget(q);
+    core::mem::forget(c);
+}
+
 /// eviction path: decrement_cached_iterative_query_stats(evicted entry) subtracts exactly that entry's contribution
 #[kani::proof]
 #[kani::unwind(22)]
